@@ -335,8 +335,8 @@ Ty(e, env) ==
                                   THEN \* an array of structs projects a field
                                        (IF a.e.k = "struct" /\ IF a.e.k = "struct" THEN HasF(a.e, StrOf(e.i.v.x)) ELSE FALSE
                                         THEN TArr(FType(a.e, StrOf(e.i.v.x))) ELSE Reject)
-                             ELSE IF a.k = "array" THEN (IF CanCoerce(i, I32) THEN a.e ELSE Reject)
-                             ELSE IF a.k = "str" THEN (IF CanCoerce(i, I32) THEN TS ELSE Reject)
+                             ELSE IF a.k = "array" THEN (IF i = I32 THEN a.e ELSE Reject)          \* an int32 exactly (no coercion)
+                             ELSE IF a.k = "str" THEN (IF i = I32 THEN TS ELSE Reject)
                              ELSE IF a.k = "dict" THEN (IF CanCoerce(i, a.key) THEN a.val ELSE Reject)
                              ELSE Reject
     [] e.op = "slice" -> LET a == T(e.a) i == T(e.i) j == T(e.j) IN
@@ -567,7 +567,7 @@ Lower(e, env) ==
          ELSE IF a.k = "struct" THEN (IF e.i.v.c = "str" THEN GetFieldX(L(e.a), StrOf(e.i.v.x)) ELSE GetFieldX(L(e.a), a.ns[IF e.i.v.x = "zero" THEN 1 ELSE 2]))
          ELSE IF a.k = "array" /\ ty.k = "array" /\ e.i.op = "py" /\ IF e.i.op = "py" THEN e.i.v.c = "str" ELSE FALSE
               THEN ToArrayX(StreamMapX(ToStreamX(L(e.a)), GetFieldX(Ref(a.e), StrOf(e.i.v.x))))
-         ELSE IF a.k = "array" THEN ArrayRefX(L(e.a), CoerceX(L(e.i), T(e.i), I32))
+         ELSE IF a.k = "array" THEN ArrayRefX(L(e.a), L(e.i))
          ELSE ApplyF("index", ty, <<L(e.a), L(e.i)>>)
     [] e.op = "slice" -> IF T(e.a).k = "array" THEN ArraySliceX(L(e.a)) ELSE ApplyF("slice", ty, <<L(e.a)>>)
     [] e.op \in {"map", "filter", "flatmap"} ->
